@@ -17,17 +17,23 @@ Record obs_packet := {
   op_go : res decision;        (* RoutingMatcher.Match *)
   op_c : kret }.               (* route() *)
 
+(* one replayed call of buildRoutingKernspace on the Go side *)
+Record obs_install := {
+  oi_alloc : N; oi_next : N;                  (* reserveLpmRingSlots result, globalNextLpmIndex afterwards *)
+  oi_kernerr : N;                             (* 0 = installed; else error class of the Go side *)
+  oi_tries : list (list prefix128);           (* snapshot.simulatedLpmTries as read at the time of the call *)
+  oi_kern : list N;                           (* rewriteKernRulesWithRingLpmIndex output, 24 bytes each *)
+  oi_rkeys : list N; oi_metalen : N;
+  oi_slots : list N;
+  oi_keys : list (list N) }.                  (* cidrToBpfLpmKey per prefix, 20 bytes each *)
+
 Record obs_case := {
   oc_msets : list mset;                       (* builder.compiledRules *)
-  oc_tries : list (list prefix128);           (* builder.simulatedLpmTries *)
+  oc_tries : list (list prefix128);           (* builder.simulatedLpmTries, read before any step *)
   oc_reloads : list N;                        (* LPM counts of earlier generations *)
-  oc_alloc : N; oc_next : N;                  (* reserveLpmRingSlots result, globalNextLpmIndex afterwards *)
-  oc_kernerr : N;                             (* 0 = installable; else error class of the Go side *)
+  oc_order : list bstep;                      (* KernspaceSnapshot / BuildUserspace / snapshot.BuildKernspace, as executed *)
   oc_raw : list N;                            (* builder.rules, 24 bytes each *)
-  oc_kern : list N;                           (* rewriteKernRulesWithRingLpmIndex output *)
-  oc_rkeys : list N; oc_metalen : N;
-  oc_slots : list N;
-  oc_keys : list (list N);                    (* cidrToBpfLpmKey per prefix, 20 bytes each *)
+  oc_installs : list obs_install;
   oc_packets : list obs_packet }.
 
 Definition bytes_eqb := list_eqb.
@@ -42,19 +48,13 @@ Definition odec_eqb (a b : option decision) : bool :=
 Definition stale_kmaps : kmaps :=
   {| km_routing := []; km_meta := 0; km_lpm := fun _ => Some [zeros 20]; km_domain := fun _ => None |}.
 
-Definition kernel_word (ms : list mset) (tries : list (list prefix128)) (alloc : N) (dom : option (list N))
-           (pk : packet) (wan : bool) : res kret :=
-  match install stale_kmaps ms tries alloc with
-  | Err e => Err e
-  | Ok km =>
-    Ok (k_route {| km_routing := km_routing km; km_meta := km_meta km; km_lpm := km_lpm km;
-                   km_domain := fun k => if list_eqb k (bytes_be 16 (p_dst pk)) then dom else None |}
-                (kargs_of pk wan))
-  end.
+Definition kernel_word (km : kmaps) (dom : option (list N)) (pk : packet) (wan : bool) : kret :=
+  k_route {| km_routing := km_routing km; km_meta := km_meta km; km_lpm := km_lpm km;
+             km_domain := fun k => if list_eqb k (bytes_be 16 (p_dst pk)) then dom else None |}
+          (kargs_of pk wan).
 
-Definition user_model (ms : list mset) (tries : list (list prefix128)) (o : obs_packet) : res decision :=
-  match_sets {| mt_sets := ms; mt_tries := tries |} (fun _ => match op_bm o with Some w => w | None => [] end)
-             (args_of_packet (op_pk o)).
+Definition user_model (mt : matcher) (o : obs_packet) : res decision :=
+  match_sets mt (fun _ => match op_bm o with Some w => w | None => [] end) (args_of_packet (op_pk o)).
 
 Definition with_index {A} (l : list A) : list (N * A) := combine (map N.of_nat (seq 0 (List.length l))) l.
 
@@ -62,13 +62,14 @@ Definition with_index {A} (l : list A) : list (N * A) := combine (map N.of_nat (
      1 C route() <> kernel model        2 C route() <> expected(Go Match)       3 kernel model <> expected(userspace model)
      4 Go Match <> userspace model (C01)   5 builder bytes <> enc_mset           6 ring / rewrite / keys / meta <> model
      7 domain_routing entry <> model    9 probe outside the quantifier: a LAN probe that carries a process name (informational, with 2) *)
-Definition check_packets (c : obs_case) (alloc : N) : list (N * N) :=
-  let ms := oc_msets c in let tries := oc_tries c in
+Definition NO_C_WORD : kret := KErrno 999.   (* the orchestrator's mark for "nothing was installed: route() was not run" *)
+
+Definition check_packets (c : obs_case) (km : kmaps) (mt : matcher) : list (N * N) :=
   List.concat (map (fun ip : N * obs_packet =>
     let '(i, o) := ip in
     let pk := op_pk o in
     let dom := dom_entry (op_bm o) in
-    let um := user_model ms tries o in
+    let um := user_model mt o in
     let exp_go := expected (p_dport pk) (user_answer (op_go o)) in
     let exp_model := expected (p_dport pk) (user_answer um) in
     (match op_dkey o, dom with
@@ -77,15 +78,40 @@ Definition check_packets (c : obs_case) (alloc : N) : list (N * N) :=
      | _, _ => [(i, 7)]
      end) ++
     (if res_eqb (op_go o) um then [] else [(i, 4)]) ++
-    (if odec_eqb (decode_word (op_c o)) exp_go then []
-     else (i, 2) :: (if probe_ok pk (op_wan o) then [] else [(i, 9)])) ++
-    match kernel_word ms tries alloc dom pk (op_wan o) with
-    | Err _ => [(i, 1)]
-    | Ok kw =>
-      (if kret_eqb (op_c o) kw then [] else [(i, 1)]) ++
-      (if odec_eqb (decode_word kw) exp_model then [] else [(i, 3)])
-    end)
+    (if kret_eqb (op_c o) NO_C_WORD then [] else
+     (if odec_eqb (decode_word (op_c o)) exp_go then []
+      else (i, 2) :: (if probe_ok pk (op_wan o) then [] else [(i, 9)])) ++
+     let kw := kernel_word km dom pk (op_wan o) in
+     (if kret_eqb (op_c o) kw then [] else [(i, 1)]) ++
+     (if odec_eqb (decode_word kw) exp_model then [] else [(i, 3)])))
     (with_index (oc_packets c))).
+
+(* one buildRoutingKernspace call: the model's log entry against what the Go side did *)
+Definition check_install (ms : list mset) (tries : list (list prefix128)) (e : ilog) (oi : obs_install) : bool :=
+  (* the snapshot the call read is the lowered program, whenever BuildUserspace ran *)
+  all2 (all2 px_eqb) (il_tries e) (oi_tries oi) &&
+  (* (a snapshot taken after BuildUserspace, which production never does, is empty and cannot be installed) *)
+  match il_rules e with [] => true | _ => all2 mset_eqb (il_rules e) ms && all2 (all2 px_eqb) (oi_tries oi) tries end &&
+  match (match il_rules e with [] => Err E_NO_RULES | _ => reserve (il_ring e) (N.of_nat (List.length (il_tries e))) end) with
+  | Err _ => negb (oi_kernerr oi =? 0)
+  | Ok (alloc, next) =>
+    (alloc =? oi_alloc oi) && (next =? oi_next oi) &&
+    match install (il_km e) (il_rules e) (il_tries e) alloc with
+    | Err _ => negb (oi_kernerr oi =? 0)
+    | Ok km =>
+      (oi_kernerr oi =? 0)
+      && all2 bytes_eqb (firstn (List.length (il_rules e)) (km_routing km)) (map (unhex 24) (oi_kern oi))
+      && (km_meta km =? oi_metalen oi)
+      && all2 N.eqb (map N.of_nat (seq 0 (List.length (il_rules e)))) (oi_rkeys oi)
+      && all2 N.eqb (map (fun i => ring_slot MaxMatchSetLen alloc (N.of_nat i)) (seq 0 (List.length (il_tries e)))) (oi_slots oi)
+      && all2 (all2 bytes_eqb) (map (map key_of_prefix) (il_tries e)) (map (map (unhex 20)) (oi_keys oi))
+      && forallb (fun it : N * list prefix128 =>
+                    match km_lpm km (ring_slot MaxMatchSetLen alloc (fst it)) with
+                    | Some ks => all2 bytes_eqb ks (map key_of_prefix (snd it))
+                    | None => false
+                    end) (with_index (il_tries e))
+    end
+  end.
 
 Definition check_case (c : obs_case) : list (N * N) :=
   let ms := oc_msets c in let tries := oc_tries c in
@@ -93,28 +119,13 @@ Definition check_case (c : obs_case) : list (N * N) :=
   match reserve_history 0 (oc_reloads c) with
   | Err _ => [(0, 6)]
   | Ok g =>
-    let count := N.of_nat (List.length tries) in
-    match reserve g count with
-    | Err _ => if oc_kernerr c =? 0 then [(0, 6)] else []
-    | Ok (alloc, next) =>
-      if negb ((alloc =? oc_alloc c) && (next =? oc_next c)) then [(0, 6)] else
-      match install stale_kmaps ms tries alloc with
-      | Err _ => if oc_kernerr c =? 0 then [(0, 6)] else []
-      | Ok km =>
-        (if (oc_kernerr c =? 0)
-            && all2 bytes_eqb (firstn (List.length ms) (km_routing km)) (map (unhex 24) (oc_kern c))
-            && (km_meta km =? oc_metalen c)
-            && all2 N.eqb (map N.of_nat (seq 0 (List.length ms))) (oc_rkeys c)
-            && all2 N.eqb (map (fun i => ring_slot MaxMatchSetLen alloc (N.of_nat i)) (seq 0 (List.length tries))) (oc_slots c)
-            && all2 (all2 bytes_eqb) (map (map key_of_prefix) tries) (map (map (unhex 20)) (oc_keys c))
-            && forallb (fun it : N * list prefix128 =>
-                          match km_lpm km (ring_slot MaxMatchSetLen alloc (fst it)) with
-                          | Some ks => all2 bytes_eqb ks (map key_of_prefix (snd it))
-                          | None => false
-                          end) (with_index tries)
-         then [] else [(0, 6)]) ++
-        check_packets c alloc
-      end
+    let w := brun false (oc_order c) (bworld0 ms tries g stale_kmaps) in
+    (if Nat.eqb (List.length (bw_log w)) (List.length (oc_installs c))
+        && forallb (fun eo => check_install ms tries (fst eo) (snd eo)) (combine (bw_log w) (oc_installs c))
+     then [] else [(0, 6)]) ++
+    match bw_matcher w with
+    | None => [(0, 6)]
+    | Some mt => check_packets c (bw_km w) mt
     end
   end.
 
